@@ -62,6 +62,8 @@ func init() {
 			}
 		},
 	})
+
+	Registry["C03"].ColdStart = func(c *mon.Ctx) { c03RunConc(c, c.Seed*7919+uint64(c.Shard)+1) }
 }
 
 func c03Pre(i int) (*secp256k1.Element, oracle.Pt) {
@@ -278,6 +280,32 @@ func c03Generate(c *mon.Ctx) {
 
 	emitStr("", "hex-empty")
 
+	// every byte value at a few positions of a valid hex string (only [0-9a-fA-F] may be accepted there)
+	for _, base := range []string{mon.H(oracle.EncC(g)), mon.H(oracle.EncC(pool.NonInf[9].P))} {
+		for _, pos := range []int{0, 1, 2, 33, len(base) - 2, len(base) - 1} {
+			for b := 0; b < 256; b++ {
+				bs := []byte(base)
+				bs[pos] = byte(b)
+				emitStr(string(bs), "hex-byte-sweep")
+			}
+		}
+	}
+
+	// lengths that equal a valid length modulo 256 / 65536 (a length kept in a narrow integer wraps there)
+	for _, l := range []int{1, 33, 65} {
+		for _, extra := range []int{256, 512, 768, 65536} {
+			enc := oracle.EncC(g)
+			if l == 65 {
+				enc = oracle.EncU(g)
+			} else if l == 1 {
+				enc = []byte{0}
+			}
+
+			emitBytes(append(append([]byte{}, enc...), make([]byte, extra)...), "len-wrap")
+			emitBytes(append(append([]byte{}, enc...), bytes.Repeat(enc, extra/len(enc)+1)[:extra]...), "len-wrap")
+		}
+	}
+
 	// 8. histories
 	c.Random(c.N(600, 60000), func(r *gen.Rng) any {
 		pts := []oracle.Pt{gen.Fresh(r).P, gen.Fresh(r).P, pool.Draw(r).P}
@@ -382,6 +410,9 @@ func c03Generate(c *mon.Ctx) {
 			return &c03Case{Dec: dec, In: mon.H(append([]byte{3}, oracle.Bytes32(x.X)...)), Pre: pre, Class: "rand-x:" + x.Class}
 		}
 	})
+
+	// and again at the end of the shard, when the process has a history behind it
+	concBatches(c, c.N(4, 200), func(seed uint64) any { return &c03Case{Conc: seed + 50000} })
 }
 
 
